@@ -26,7 +26,8 @@ ALLOW = {}
 
 class Router(object):
     def allow_migrate(self, db, app_label, model_name=None, **hints):
-        key = (app_label, (model_name or '').lower())
+        # compared as given: Django passes the lower-cased `_meta.model_name` (documented contract)
+        key = (app_label, model_name or '')
         if key in ALLOW:
             return db == ALLOW[key]
         return None
